@@ -238,6 +238,9 @@ def load(f, **_options):
                 for k, v in frame["attributes"].items():
                     new_frame.add_attribute(k, v)
 
+            if frame.get("comment"):
+                new_frame.add_comment(frame["comment"])
+
             if "transmitters" in frame:
                 new_frame.transmitters = frame["transmitters"]
 
@@ -307,6 +310,8 @@ def load(f, **_options):
         if define_type in json_data:
             for define in json_data[define_type]:
                 fptr(define['name'], define['define'])
+                if define.get('default') is not None:
+                    db.add_define_default(define['name'], define['default'])
 
     cm_import_list_dict = {'attributes': db.attributes, 'value_tables': db.value_tables, 'env_vars': db.env_vars}
 
